@@ -39,6 +39,9 @@ def check_less_if(ctx, rep, rule='O-swap'):
                 if any(strip_upd(v)[0] == 'param' and bool(c[1]) != cval for (v, c) in p.conds):
                     continue
                 r = strip_upd(sym.simplify(sym.subst(p.ret, p.conds)))
+                rev = False
+                while r[0] in ('pcall', 'call') and r[1] == 'std::cmp::Ordering::reverse' and len(r[2]) == 1:
+                    rev, r = not rev, strip_upd(r[2][0])
                 o = ordering_const(r)
                 if o is None and r[0] in ('pcall', 'call') and r[1] in (LESS_IF, LESS_IF_INV) and r[1] != fn and r[1] in tabs and len(r[2]) == 1:
                     # defined through its sibling: evaluate the argument
@@ -50,6 +53,8 @@ def check_less_if(ctx, rep, rule='O-swap'):
                         o = tabs[r[1]].get(cval != neg)
                     elif sym.is_const(a):
                         o = tabs[r[1]].get(bool(a[1]) != neg)
+                if rev and o in ('Less', 'Greater', 'Equal'):
+                    o = {'Less': 'Greater', 'Greater': 'Less', 'Equal': 'Equal'}[o]
                 outs.add(o)
             tab[cval] = outs.pop() if len(outs) == 1 else None
         tabs[fn] = tab
@@ -77,7 +82,7 @@ def order_test(v, first, second):
     if x[0] != 'op' or len(x) != 4:
         return 0
     s = show(noepoch(x))
-    if 'point' in s or 'orient2d' in s or 'contour_id' in s or 'is_subject' in s:
+    if 'point' in s or 'orient2d' in s or 'signed_area' in s or 'contour_id' in s or 'is_subject' in s:
         return 0
     if x[1] in ('gt', 'lt'):
         sa, sb = show(noepoch(x[2])), show(noepoch(x[3]))
@@ -191,7 +196,7 @@ def atom_of(v):
         if na and nb and na.endswith('.left') and nb.endswith('.left'):
             return ('leftcmp', x[1], na[:-5], nb[:-5])
         # orientation != 0
-        if a[0] == 'pcall' and a[1].endswith('orient2d') and b[0] == 'c':
+        if a[0] == 'pcall' and (a[1].endswith('orient2d') or a[1].endswith('signed_area::signed_area')) and b[0] == 'c':
             return ('orient', x[1], tuple(point_ent(q) for q in a[2]), b[1])
         return ('unknown', show(noepoch(x))[:80])
     if k == 'discr':
@@ -425,8 +430,8 @@ def check_antisym(ctx, rep, rule='O-antisym-event'):
             has = [c for (v, c) in p.conds if strip_upd(v)[0] == 'discr']
             left = [c[1] for (v, c) in p.conds if show(noepoch(v)).endswith('.left')]
             r = strip_upd(p.ret)
-            if r[0] == 'op' and r[1] == 'gt' and strip_upd(r[2])[0] == 'pcall' and strip_upd(r[2])[1].endswith('orient2d'):
-                pts = tuple(point_ent(q) if point_ent(q)[0] != '?' else ('p' if strip_upd(strip_upd(q)[4][0])[1][0] == 'param' else '?') for q in strip_upd(r[2])[2])
+            if r[0] == 'op' and r[1] == 'gt' and strip_upd(r[2])[0] == 'pcall' and (strip_upd(r[2])[1].endswith('orient2d') or strip_upd(r[2])[1].endswith('signed_area::signed_area')):
+                pts = tuple(point_ent(q) if point_ent(q)[0] != '?' else ('p' if (strip_upd(q)[0] == 'param' or (strip_upd(q)[0] == 'agg' and strip_upd(strip_upd(q)[4][0])[1][0] == 'param')) else '?') for q in strip_upd(r[2])[2])
                 shapes.add((left[0] if left else None, pts, strip_upd(r[3])[1][1] if strip_upd(r[3])[0] == 'c' else '?'))
             elif sym.is_const(r):
                 shapes.add(('no-other', r[1]))
@@ -589,7 +594,7 @@ def _seg_atom(v, role):
         return ('not', _seg_atom(x[2], role))
     if k == 'op' and len(x) == 4:
         return ('op', x[1], _seg_atom(x[2], role), _seg_atom(x[3], role))
-    if k == 'pcall' and x[1].endswith('orient2d'):
+    if k == 'pcall' and (x[1].endswith('orient2d') or x[1].endswith('signed_area::signed_area')):
         pts = tuple(_seg_point(q, role) for q in x[2])
         return ('orient', pts)
     if k == 'pcall' and x[1] == ISBELOW:
